@@ -258,6 +258,17 @@ def _names_used_in_function(fun: FunctionProto) -> set[str]:
     return names
 
 
+def _update_names_read(names: set[str], nodes: Sequence[onnx.NodeProto]) -> None:
+    """Adds the names read by the given nodes: their inputs and, for nested graphs, the
+    graph outputs and the names read by their nodes."""
+    for node in nodes:
+        names.update(node.input)
+        for attr in node.attribute:
+            for graph in [attr.g, *attr.graphs]:
+                names.update(x.name for x in graph.output)
+                _update_names_read(names, graph.node)
+
+
 def has_input(node: onnx.NodeProto, index: int) -> bool:
     """Returns True iff the node has an input at given index."""
     return index < len(node.input) and node.input[index] != ""
@@ -311,6 +322,7 @@ class _Exporter:
         self.constants: dict[str, str] = {}
         self._attr_renaming: dict[str, str | None] = {}  # For current function.
         self._names_used: set[str] = set()  # For current function.
+        self._names_read: set[str] = set()  # For current function or main graph.
         # _name_remappings: used to undo the SSA-renaming in ONNX control-flow ops.
         # We map the multiple SSA-variants back to the same Python variable name.
         self._name_remappings: list[dict[str, str]] = []
@@ -496,6 +508,10 @@ class _Exporter:
             )
         )
         code.extend(self._emit_assign(node.output, else_branch.output, indent + 1))
+        if not self._names_read.intersection(node.output):
+            # No output is used: the converter rejects an `if` that defines no live variable.
+            # ONNX nodes have no side effects, so the (checked) translation can be dropped.
+            return ""
         return "\n".join(code)
 
     def _emit_assign(self, lhs, rhs, indent):
@@ -754,6 +770,8 @@ class _Exporter:
         # Sorted: the renaming depends on the order in which names are first seen.
         renamed_names_used = [self._translate_onnx_var(x) for x in sorted(used_proto_names)]
         self._names_used = set(renamed_names_used)
+        self._names_read = set(funproto.output)
+        _update_names_read(self._names_read, funproto.node)
         result = []
 
         def add_line(line: str) -> None:
@@ -782,6 +800,8 @@ class _Exporter:
             opsets[imported.domain] = imported.version
         if function_name is None:
             function_name = _cleanup_variable_name(graph.name)
+        self._names_read = {x.name for x in graph.output}
+        _update_names_read(self._names_read, graph.node)
 
         result: list[str] = []
 
